@@ -12,6 +12,7 @@
 mod cfgcorpus;
 mod cls;
 mod dec;
+mod decsys;
 mod enc;
 mod oneshot;
 mod meta;
